@@ -637,6 +637,18 @@ func VH_Repeatable() {
 		CoalesceMessages(other)
 		vAssert(vEventDigest(e1) == d1r, "C15/earlier-event-altered-by-a-later-coalesce")
 	}
+	// one message in two groups: the SYSCALL record of this group with two different sets of companions
+	// (rule keys, working directories). The first event stays what it was when the second one is built.
+	if msgs[0].RecordType == auparse.AUDIT_SYSCALL {
+		a := vParseGroup([]string{`1305|auid=1000 ses=3 op=add_rule key="rule-a" list=4 res=1`, `1307|cwd="/tmp/a"`}, "77")
+		b := vParseGroup([]string{`1305|auid=1000 ses=3 op=add_rule key="rule-b" list=4 res=1`, `1307|cwd="/tmp/b"`, `1302|item=0 name="/b" inode=6 dev=08:01 mode=0100644 ouid=1 ogid=1 rdev=00:00 nametype=NORMAL`}, "77")
+		if a != nil && b != nil {
+			evA, _ := CoalesceMessages(append([]*auparse.AuditMessage{msgs[0]}, a...))
+			dA := vEventDigest(evA)
+			CoalesceMessages(append([]*auparse.AuditMessage{msgs[0]}, b...))
+			vAssert(vEventDigest(evA) == dA, "C15/earlier-event-altered-by-a-later-coalesce")
+		}
+	}
 }
 
 // ---- C15: concurrent coalescing and ID resolution of different events ------------------------------
